@@ -63,11 +63,13 @@ fn main() {
         })
         .collect();
     let bad = std::sync::atomic::AtomicBool::new(false);
+    let reports: std::sync::Mutex<Vec<String>> = std::sync::Mutex::new(vec![]);
     std::thread::scope(|sc| {
         for prog in &programs {
             let tokenizer = &tokenizer;
             let expected = &expected;
             let bad = &bad;
+            let reports = &reports;
             sc.spawn(move || {
                 let mut w = tokenizer.new_worker();
                 for (k, &i) in prog.iter().enumerate() {
@@ -77,7 +79,12 @@ fn main() {
                         w.tokenize(); // repeated tokenize
                     }
                     if tokens(&w) != expected[i] {
-                        eprintln!("MISMATCH seed={seed} sentence={:?}: {:?} vs {:?}", pool[i], tokens(&w), expected[i]);
+                        reports.lock().unwrap().push(format!(
+                            "MISMATCH seed={seed} sentence={:?}: shared-tokenizer worker gives {:?}, a fresh single-threaded worker {:?}",
+                            pool[i],
+                            tokens(&w),
+                            expected[i]
+                        ));
                         bad.store(true, std::sync::atomic::Ordering::Relaxed);
                     }
                 }
@@ -85,6 +92,9 @@ fn main() {
         }
     });
     if bad.load(std::sync::atomic::Ordering::Relaxed) {
+        for r in reports.lock().unwrap().iter().take(3) {
+            eprintln!("{r}");
+        }
         std::process::exit(1);
     }
     println!("miri scenario seed={seed}: 3 threads x 5 sentences, all equal to fresh-worker results");
